@@ -140,69 +140,168 @@ def run(chk, repo):
     chk.require(len(arm) == 1, "variable-gain arm 'if isinstance(self.denpoly[0], Stream)' not found")
     arm = arm[0]
     a0, rest, N = RF.sym("a0"), RF.sym("Drest"), RF.sym("N")
-    state = {"c0": a0, "rest": rest}
-    env = {}
-    denname = None
+    polys = {}          # local name -> [c0, rest, c0 is the literal 1]
+    env = {}            # scalar locals (gain streams) in normal form
+    zfs = {}            # local name -> (num, den poly name or tuple)
     ret = None
+
+    def ev_scalar(e, numsym=None):
+        def attr_hook(ev, node):
+            t = unparse(node)
+            if t == "self.denpoly[0]":
+                return a0
+            if isinstance(node, ast.Subscript) and unparse(node.value) in polys and unparse(node.slice) == "0":
+                return polys[unparse(node.value)][0]
+            if t == "self.numpoly" and numsym is not None:
+                return numsym
+            return None
+
+        def call_hook(ev, name, node):
+            if isinstance(node.func, ast.Attribute) and node.func.attr == "copy" and not node.args:
+                return ev.ev(node.func.value)
+            return None
+        return Evaluator(env, call_hook=call_hook, attr_hook=attr_hook).ev(e)
+
+    def ev_poly(e):
+        """[c0, rest, literal] for a polynomial-valued expression, or None"""
+        t = unparse(e)
+        if t == "self.denpoly":
+            return [a0, rest, False]
+        if isinstance(e, ast.Name) and e.id in polys:
+            return polys[e.id]          # alias: same object
+        if isinstance(e, ast.Call) and unparse(e.func) in ("self.denpoly.copy",) and not e.args:
+            return [a0, rest, False]
+        if isinstance(e, ast.Call) and isinstance(e.func, ast.Attribute) and e.func.attr == "copy" and not e.args \
+                and unparse(e.func.value) in polys:
+            return list(polys[unparse(e.func.value)])
+        # Poly(OrderedDict((delay, F(delay, coeff)) for delay, coeff in P.terms()), zero=..)
+        if isinstance(e, ast.Call) and base_name(canon(fmod, e.func)) == "Poly" and e.args:
+            inner = e.args[0]
+            if isinstance(inner, ast.Call) and unparse(inner.func) in ("OrderedDict", "dict") and inner.args:
+                inner = inner.args[0]
+            if isinstance(inner, (ast.GeneratorExp, ast.ListComp, ast.DictComp)) and len(inner.generators) == 1 \
+                    and not inner.generators[0].ifs:
+                g = inner.generators[0]
+                src = g.iter
+                if isinstance(src, ast.Call) and isinstance(src.func, ast.Attribute) and src.func.attr == "terms":
+                    base = ev_poly(src.func.value)
+                elif isinstance(src, ast.Call) and unparse(src.func) == "iteritems" and unparse(src.args[0]) == "self.dendict":
+                    base = [a0, rest, False]
+                else:
+                    base = None
+                if base is not None and isinstance(g.target, ast.Tuple) and len(g.target.elts) == 2:
+                    kname, vname = [unparse(x) for x in g.target.elts]
+                    if isinstance(inner, ast.DictComp):
+                        kexp, vexp = inner.key, inner.value
+                    elif isinstance(inner.elt, ast.Tuple) and len(inner.elt.elts) == 2:
+                        kexp, vexp = inner.elt.elts
+                    else:
+                        return None
+                    if unparse(kexp) != kname:
+                        raise Inconclusive("delays are re-mapped in %s" % short(e))
+
+                    def at(zero_delay, coeff):
+                        def resolve(x):
+                            if isinstance(x, ast.IfExp):
+                                tt = unparse(x.test)
+                                if tt in ("%s == 0" % kname, "0 == %s" % kname, "not %s" % kname):
+                                    return resolve(x.body if zero_delay else x.orelse)
+                                if tt in ("%s != 0" % kname, "0 != %s" % kname, kname):
+                                    return resolve(x.orelse if zero_delay else x.body)
+                                raise Inconclusive("condition %s" % tt)
+                            return x
+                        x = resolve(vexp)
+                        saved = env.get(vname)
+                        env[vname] = coeff
+                        try:
+                            val = ev_scalar(x)
+                        finally:
+                            if saved is None:
+                                env.pop(vname, None)
+                            else:
+                                env[vname] = saved
+                        return val, (isinstance(x, ast.Constant) and x.value == 1)
+                    c0v, lit = at(True, base[0])
+                    restv, _ = at(False, base[1])
+                    return [c0v, restv, lit]
+        return None
     try:
         for st in arm.body:
-            if isinstance(st, ast.Assign) and unparse(st.value) == "self.denpoly":
-                denname = unparse(st.targets[0])
+            if isinstance(st, ast.Assign) and len(st.targets) == 1 and isinstance(st.targets[0], ast.Name):
+                nm = st.targets[0].id
+                v = st.value
+                pv = ev_poly(v)
+                if pv is not None:
+                    polys[nm] = pv
+                elif isinstance(v, ast.Call) and base_name(canon(fmod, v.func)) == "ZFilter" and len(v.args) == 2:
+                    zfs[nm] = v
+                else:
+                    env[nm] = ev_scalar(v)
             elif isinstance(st, ast.Assign) and isinstance(st.targets[0], ast.Subscript) \
-                    and unparse(st.targets[0].value) == denname and unparse(st.targets[0].slice) == "0":
-                state["c0"] = _ev_gain(st.value, env, state, denname)
-            elif isinstance(st, ast.Assign) and isinstance(st.targets[0], ast.Name):
-                env[st.targets[0].id] = _ev_gain(st.value, env, state, denname)
-            elif isinstance(st, ast.AugAssign) and unparse(st.target) == denname and isinstance(st.op, ast.Mult):
-                f = _ev_gain(st.value, env, state, denname)
-                state["c0"], state["rest"] = state["c0"] * f, state["rest"] * f
+                    and unparse(st.targets[0].value) in polys and unparse(st.targets[0].slice) == "0":
+                P = polys[unparse(st.targets[0].value)]
+                P[0] = ev_scalar(st.value)
+                P[2] = isinstance(st.value, ast.Constant) and st.value.value == 1
+            elif isinstance(st, ast.AugAssign) and unparse(st.target) in polys and isinstance(st.op, ast.Mult):
+                f = ev_scalar(st.value)
+                P = polys[unparse(st.target)]
+                # Poly defines no in-place product: the name is re-bound to a new polynomial
+                polys[unparse(st.target)] = [P[0] * f, P[1] * f, False]
             elif isinstance(st, ast.Return):
                 ret = st
             else:
                 raise Inconclusive("statement %s" % unparse(st))
-        chk.require(ret is not None and denname is not None, "variable-gain arm: shape not recognised")
+        chk.require(ret is not None, "variable-gain arm: no return")
         v = ret.value
-        ok_shape = isinstance(v, ast.Call) and isinstance(v.func, ast.Call) and base_name(canon(fmod, v.func.func)) == "ZFilter" \
-            and len(v.func.args) == 2
-        chk.require(ok_shape, "variable-gain arm: return is not ZFilter(num, den)(...)")
-        envn = dict(env)
-        envn["__N__"] = N
-        num = _ev_gain(v.func.args[0], env, state, denname, numsym=N)
-        den_ok = unparse(v.func.args[1]) == denname
-        got = num / (state["c0"] + state["rest"])
+        zf = None
+        if isinstance(v, ast.Call) and isinstance(v.func, ast.Call) and base_name(canon(fmod, v.func.func)) == "ZFilter" \
+                and len(v.func.args) == 2:
+            zf = v.func
+        elif isinstance(v, ast.Call) and isinstance(v.func, ast.Name) and v.func.id in zfs:
+            zf = zfs[v.func.id]
+        chk.require(zf is not None, "variable-gain arm: return is not ZFilter(num, den)(...)")
+        num = ev_scalar(zf.args[0], numsym=N)
+        dp = ev_poly(zf.args[1])
+        chk.require(dp is not None, "variable-gain arm: denominator %s not interpretable" % unparse(zf.args[1]))
+        got = num / (dp[0] + dp[1])
         want = N / (a0 + rest)
-        chk.decide(den_ok and got == want, "C06.a0", WF("LinearFilter.__call__"),
+        chk.decide(got == want, "C06.a0", WF("LinearFilter.__call__"),
                    "variable a0: " + short(ret), why="normalised filter %s differs from N/(a0 + Drest)" % got.key(),
                    detail="= N/(a0 + Drest)", node=ret)
-        writes0 = [st for st in arm.body if isinstance(st, (ast.Assign, ast.AugAssign))
-                   and (unparse(getattr(st, "targets", [None])[0] if isinstance(st, ast.Assign) else st.target)
-                        in ("%s[0]" % denname, denname))]
-        lastw = writes0[-1] if writes0 else None
-        literal_one = isinstance(lastw, ast.Assign) and unparse(lastw.targets[0]) == "%s[0]" % denname \
-            and isinstance(lastw.value, ast.Constant) and lastw.value.value == 1
-        chk.decide(state["c0"] == 1 and literal_one, "C06.a0", WF("LinearFilter.__call__"), "new a[0] is the constant 1",
+        chk.decide(dp[0] == 1 and dp[2], "C06.a0", WF("LinearFilter.__call__"), "new a[0] is the constant 1",
                    why="the recursive call would take this arm again or divide by a wrong gain", node=arm)
         fw = [unparse(a) for a in v.args] + ["%s=%s" % (k.arg, unparse(k.value)) for k in v.keywords]
         chk.decide(fw == ["seq", "memory=memory", "zero=zero"], "C06.a0", WF("LinearFilter.__call__"),
                    "forwards %s" % fw, why="input, memory and zero must reach the normalised filter", node=ret)
     except Inconclusive as ex:
         raise AnalysisError("variable-gain arm of LinearFilter.__call__ not interpretable: %s" % ex)
-    # inv_gain linear use
+    # gain streams: linear use
     gains = [k for k in env]
     for g in gains:
         uses = []
+        many = []
         for st in arm.body:
             val = getattr(st, "value", None)
             if val is not None:
-                uses.extend(e4.find_uses(val, lambda n, g=g: isinstance(n, ast.Name) and n.id == g
-                                         and isinstance(n.ctx, ast.Load)))
+                found = e4.find_uses(val, lambda n, g=g: isinstance(n, ast.Name) and n.id == g and isinstance(n.ctx, ast.Load))
+                uses.extend(found)
+                # a use inside the element of a comprehension happens once per term
+                for comp in [c for c in ast.walk(val) if isinstance(c, (ast.GeneratorExp, ast.ListComp, ast.SetComp, ast.DictComp))]:
+                    parts = [getattr(comp, f_) for f_ in ("elt", "key", "value") if hasattr(comp, f_)]
+                    for part in parts:
+                        for n in ast.walk(part):
+                            if isinstance(n, ast.Name) and n.id == g and isinstance(n.ctx, ast.Load):
+                                many.append(n)
         bare = [u for u in uses if not u.copied]
         pos = lambda u: (u.node.lineno, u.node.col_offset)
         ok = len(bare) <= 1 and all(pos(u) < pos(bare[0]) for u in uses if u.copied) if bare else True
+        ok = ok and not many
         chk.decide(ok, "C06.a0", WF("LinearFilter.__call__"),
-                   "gain stream %s: %d use(s), %d un-copied, copies first" % (g, len(uses), len(bare)),
-                   why="the gain Stream is iterated by numerator and denominator: all but the last use need .copy()",
-                   node=arm)
+                   "gain stream %s: %d use(s), %d un-copied, %d inside a per-term expression, copies first" % (
+                       g, len(uses), len(bare), len(many)),
+                   why="the gain Stream is iterated by the numerator and by every denominator coefficient it scales: "
+                       "each of these needs its own copy (one Stream object used in several terms is advanced several "
+                       "times per sample)", node=arm)
 
     # -------------------------------------------------- R4.3 / R4.4 carriers
     chk.rule("R4.3", "in an arithmetic dunder, on every path, each carrier (self/other .numpoly/.denpoly, self, "
